@@ -7,6 +7,8 @@ NAME_POOLS = [
     ["in 1", "Core", "alu", "MemUnit", "out", "fetch", "Decode", "wb", "X", "y"],
     # names that are special to string.Template, str.format, %-formatting, csv or YAML
     ["a$b", "$in", "x{0}", "100%s", "q'r", "semi;colon", "#1", "u$$", "${p}", "back\\slash"],
+    # names that look like the placeholders of the project's own message templates
+    ["$width", "$new_elem", "$start", "$line", "$port", "$$", "$capability", "$unit", "$elem", "$lock_type"],
 ]
 
 
@@ -169,7 +171,13 @@ def simple_locks(rng, desc):
 
 
 def dup_noise(rng, d):
-    """legal redundancy: a capability listed twice in a unit, a connection listed twice (any letter case)"""
+    """legal redundancy: a capability listed twice in a unit, a connection listed twice (any letter case),
+    a memory-access entry listed twice or naming a capability declared only by other units"""
+    allcaps = [c for u in d["units"] for c in u["capabilities"]]
+    if d["units"] and allcaps and rng.random() < 0.15:
+        u = rng.choice(d["units"])
+        m = u.setdefault("memoryAccess", [])
+        m.insert(rng.randrange(len(m) + 1), recase(rng, rng.choice(m) if m and rng.random() < 0.5 else rng.choice(allcaps), 0.3))
     if d["units"] and rng.random() < 0.2:
         u = rng.choice(d["units"])
         if u["capabilities"]:
@@ -208,6 +216,9 @@ def rand_prog(rng, caps, nmax=8, nreg=None, bad=0.0, selfdep=0.3):
         else:
             dst = rng.choice(regs)
         cat = rng.choice(caps) if (caps and rng.random() >= bad) else "XXX"
+        if srcs and rng.random() < 0.15:           # as written: unsorted, with a repeated source
+            srcs = srcs + [rng.choice(srcs)]
+            rng.shuffle(srcs)
         prog.append((tuple(srcs), dst, cat))
     return prog
 
